@@ -42,6 +42,9 @@ type Cfg struct {
 	InitMsgs  int
 	WithJunk  bool // append malformed messages too (crash probing only)
 	WithAdmin bool // CREATE/DELETE/RENAME/SUBSCRIBE/LIST/STATUS
+	// Sleeper: the last session selects a mailbox and then stays silent for the whole history
+	// (its view becomes arbitrarily stale); it only issues the final NOOP
+	Sleeper bool
 }
 
 type Msg struct {
